@@ -54,6 +54,14 @@ func VerifC04ParseResolve() {
 // short symbolic tail, so that the depth/label/error bookkeeping is reached with little input.
 func VerifC04ParseResolveRows() {
 	text := "a 1"
+	switch vParam("first") { // the first row: a root node, an error row, a label reference, or a typed row
+	case 1:
+		text = c04Field("f0n") + "@" + c04Field("f0q") + " ERROR: " + c04Field("f0e")
+	case 2:
+		text = "$" + c04Field("f0l") + "@" + c04Field("f0q")
+	case 3:
+		text = c04Field("f0t") + "|" + c04Field("f0n") + " " + c04Field("f0c")
+	}
 	rows := vParam("rows")
 	for r := 0; r < rows; r++ {
 		tag := string([]byte{'r', byte('0' + r)})
